@@ -116,7 +116,8 @@ CLAIMS["C11"] = dict(
     note=TB + "str.split/strip/lower/rstrip are uninterpreted functions with length facts only: the clauses speak about 'the entries of the "
               "split list, stripped and lower-cased', not about characters. int() of the count is an uninterpreted partial function. "
               "The pragma line shift of fix mode is proved under C08 (__apply_replacement_fix, adjust_pragma_line_number; D12 fixed). "
-              "NOT covered: 'the document parses as if the pragma line had been deleted' (parser-level).")
+              "NOT covered: 'the document parses as if the pragma line had been deleted' (parser-level) -- observation D27 (DESIGN.md 11.3): "
+              "inline positions after a pragma line inside a paragraph are one line too small, so that pragma suppresses nothing.")
 
 CLAIMS["C10"] = dict(
     text="Proof, with ghost sets g_written (targets of shutil.copyfile) and g_files (temporary files that exist): one fix pass overwrites the "
